@@ -324,6 +324,12 @@ def primitives(interp):
         return None
     ns["refine_as"] = refine_as
 
+    @_b("by_tier")
+    def by_tier(interp, quick, thorough):
+        """a bound that is larger in the thorough tier (e.g. ListOf(T, by_tier(2, 4)))"""
+        return thorough if getattr(interp.cfg, "tier", "quick") == "thorough" else quick
+    ns["by_tier"] = by_tier
+
     @_b("open_dict")
     def open_dict(interp, name, key_td, mk_key, key_of, value_tds, mk_value):
         """a dict in an arbitrary state (any number of entries): see pyvc/opendict.py"""
